@@ -1,6 +1,7 @@
 /- EngineDriver.lean — line protocol for the engine model; output format identical to verif/engine.rs -/
 import GV.DriverExt
 import GV.Model.Engine
+import GV.Model.EngineWF
 namespace GV
 
 def completionText : Completion → String
@@ -106,6 +107,12 @@ def engDispatch (st : EngSession) (verb head payload : String) : EngSession × S
   | "eng.snap" =>
     (match st.eng with
      | some e => (st, snapshotText e)
+     | none => (st, "res=bad-request no engine"))
+  | "eng.wf" =>
+    (match st.eng with
+     | some e => (st, match e.wfViolations with
+        | [] => "res=ok wf=ok"
+        | l => s!"res=ok wf={"+".intercalate l}")
      | none => (st, "res=bad-request no engine"))
   | _ =>
     match st.eng, kv.numD "t" with
